@@ -2,11 +2,16 @@
 (* Decision table for protocol-version negotiation, property C07.            *)
 (*  CaseSet    the configuration matrix: requested version x transport x     *)
 (*             HTTP options x versions advertised by the server side x       *)
-(*             availability of server/discover x an earlier connection to    *)
-(*             the same Server through another streamable endpoint           *)
+(*             availability of server/discover and the shape in which its    *)
+(*             absence shows up (JSON-RPC error / plain HTTP answer of a     *)
+(*             front end or older server) x how the peer answers initialize  *)
+(*             x an earlier connection to the same Server through another    *)
+(*             streamable endpoint                                           *)
 (*  Expected   the code-shaped procedure: Client.Connect (discover loop of   *)
 (*             two rounds, renegotiation from -32022 data, fall-back to      *)
-(*             initialize capped at 2025-11-25), ServerSession.handle's      *)
+(*             initialize capped at 2025-11-25, check of the version in the  *)
+(*             initialize result), the streamable / SSE client's handling    *)
+(*             of a failed discover POST, ServerSession.handle's             *)
 (*             version gate, Server.discover + filterSupportedVersions,      *)
 (*             negotiatedVersion (mcp/client.go, server.go, shared.go,       *)
 (*             streamable.go, sse.go)                                        *)
@@ -40,22 +45,54 @@ LegacyOnly == {"sse", "stateful", "statefulnosid"}
 \* prior: before the judged connection, a default client connected (and disconnected) to the SAME
 \* Server through a second streamable handler of the named kind (same JSON / store options)
 Priors == {"none", "stateless", "stateful"}
-Discs == {"native", "notfound", "unsupp"}   \* server/discover: SDK handler / method unknown (-32601) /
-                                            \* refused with -32022 listing legacy versions only
+\* How the absence of server/discover shows up.
+\*   JSON-RPC level (the request reaches an MCP server): SDK handler / method unknown (-32601) /
+\*   refused with -32022 listing legacy versions only
+JsonDiscs == {"native", "notfound", "unsupp"}
+\*   HTTP level (a front end, router or older server that does not know the probe answers the discover POST
+\*   itself, with a plain HTTP error and a body that is not a JSON-RPC message; every other request reaches
+\*   the real endpoint)
+HttpStatuses == {"404", "400", "405", "501"}
+HttpDisc(s) == "http" \o s
+HttpDiscs == {HttpDisc(s) : s \in HttpStatuses}
+Bodies == {"text", "empty", "html", "json"}   \* text/plain, no body at all, text/html, application/json that is no JSON-RPC
+Discs == JsonDiscs \cup HttpDiscs
+DiscBodies == {<<d, "none">> : d \in JsonDiscs} \cup {<<d, b>> : d \in HttpDiscs, b \in Bodies}
+HttpTransports == {"sse", "stateful", "statefulnosid", "stateless"}
+
+\* How the peer answers the legacy initialize request (ians).
+\*   honest      as the SDK server does: the client's version if it knows it, else its latest legacy one
+\*   a version   the peer speaks exactly this revision through initialize and says so whatever it was asked
+\*               for: one of the SDK's legacy versions, 2026-07-28 (a revision that has no initialize
+\*               handshake), or a string of one of the classes unknown to the SDK (older than all, between
+\*               known ones, newer, far newer / garbage)
+Answers == {"honest"} \cup V \cup UnkLegacy \cup UnkModern
 
 \* wrap: the server transport is wrapped in a ProtocolVersionSupporter that admits exactly adv
 \* early: the client's first request is already on its way while Server.Connect is still asking the transport
 \* which versions it supports (a client that was started before the server, e.g. over stdio); the outcome the
 \* property demands does not depend on it
 Wrapped ==
-  { [req |-> r, tr |-> t, json |-> FALSE, store |-> FALSE, wrap |-> TRUE, adv |-> a, disc |-> "native", prior |-> "none", early |-> e] :
+  { [req |-> r, tr |-> t, json |-> FALSE, store |-> FALSE, wrap |-> TRUE, adv |-> a, disc |-> "native", dbody |-> "none",
+     prior |-> "none", early |-> e, ians |-> "honest"] :
       r \in Requests, t \in {"mem", "io"}, a \in SUBSET V, e \in BOOLEAN }
 Unwrapped ==
-  { [req |-> r, tr |-> t, json |-> j, store |-> s, wrap |-> FALSE, adv |-> V, disc |-> d, prior |-> p, early |-> FALSE] :
-      r \in Requests, t \in Transports, j \in BOOLEAN, s \in BOOLEAN, d \in Discs, p \in Priors }
+  { [req |-> r, tr |-> t, json |-> j, store |-> s, wrap |-> FALSE, adv |-> V, disc |-> db[1], dbody |-> db[2],
+     prior |-> p, early |-> FALSE, ians |-> a] :
+      r \in Requests, t \in Transports, j \in BOOLEAN, s \in BOOLEAN, db \in DiscBodies, p \in Priors, a \in Answers }
 ValidCase(c) == /\ c.tr \notin HttpOpts => (~c.json /\ ~c.store /\ c.prior = "none")
                 /\ c.prior # "none" => c.disc = "native"
-CaseSet == Wrapped \cup {c \in Unwrapped : ValidCase(c)}
+                /\ c.disc \in HttpDiscs => c.tr \in HttpTransports
+\* the whole matrix (thorough tier)
+FullCaseSet == Wrapped \cup {c \in Unwrapped : ValidCase(c)}
+\* quick tier: every value of every dimension, the two peer-answer dimensions (disc/dbody, ians) crossed with each
+\* other, with every request and every transport, but with the HTTP options / earlier connection only on the
+\* SDK-to-SDK part, and the body kinds only with an honest peer
+Plain(c) == ~c.json /\ ~c.store /\ c.prior = "none"
+Core(c) == \/ c.wrap
+           \/ c.ians = "honest" /\ c.disc \in JsonDiscs
+           \/ Plain(c) /\ (c.ians = "honest" \/ c.disc \in JsonDiscs \/ c.dbody = "text")
+CoreCaseSet == {c \in FullCaseSet : Core(c)}
 
 \* ------------------------------------------------- the property's vocabulary
 \* the version the client asks for
@@ -63,14 +100,23 @@ Req(c) == IF c.req = "default" THEN Latest ELSE c.req
 \* what the transport can carry: 2026-07-28 is defined for stdio and stateless streamable HTTP only
 \* (whatever was connected to the same Server before does not change what this endpoint can carry)
 TransportSupported(tr) == IF tr \in LegacyOnly THEN Legacy ELSE V
-\* what the server side advertises: the wrapper's set; nothing modern when it has no server/discover
-ServerAdvertised(c) == IF c.disc = "native" THEN c.adv ELSE c.adv \ Modern
+\* what the server side supports, as far as a peer can tell: the sessionless versions it offers through
+\* server/discover (nothing when discovery is unavailable, in whatever shape that shows up) and what it offers through
+\* initialize (the wrapper's legacy versions for the SDK server; for a peer that answers initialize with one fixed
+\* revision, that revision - which is nothing the SDK side shares when the string is unknown to it)
+ServerViaDiscover(c) == IF c.disc = "native" THEN c.adv \cap Modern ELSE {}
+ServerViaInitialize(c) == IF c.ians = "honest" THEN c.adv \cap Legacy ELSE c.adv \cap {c.ians}
+ServerAdvertised(c) == ServerViaDiscover(c) \cup ServerViaInitialize(c)
 ClientSupported == V
 Mutual(c) == ClientSupported \cap ServerAdvertised(c) \cap TransportSupported(c.tr)
 ModernRequested(c) == Req(c) \in Modern \cup UnkModern
 ModernAvailable(c) == Mutual(c) \cap Modern # {}
 
 \* Outcome: [kind ("session"|"error"), version, nDisc, sentInit, listOK, callOK]
+\*   version   InitializeResult().ProtocolVersion of the session Client.Connect handed out ("" for an error)
+\*   nDisc     server/discover requests the client issued while connecting
+\*   sentInit  an initialize request left the client for the peer while connecting (seen on the wire: written to the
+\*             pipe / POSTed to the endpoint) - a client whose connection died with the probe has not fallen back
 Sound(c, o) == o.kind = "session" => o.version \in Mutual(c)
 NoModernOverLegacyTransport(c, o) ==
   (o.kind = "session" /\ c.tr \in LegacyOnly) => o.version \notin Modern
@@ -100,15 +146,19 @@ TransportFilter(c) == IF c.wrap THEN c.adv
 
 \* reply to server/discover carrying _meta.protocolVersion = r
 DiscReply(c, r) ==
-  IF r \notin V THEN [k |-> "unsupp", data |-> V]                   \* ServerSession.handle, before middleware; unfiltered list
+  IF c.disc \in HttpDiscs THEN [k |-> "http", data |-> {}]          \* the front answers before any MCP server sees the probe
+  ELSE IF r \notin V THEN [k |-> "unsupp", data |-> V]                   \* ServerSession.handle, before middleware; unfiltered list
   ELSE IF c.disc = "notfound" THEN [k |-> "other", data |-> {}]
   ELSE IF c.disc = "unsupp" THEN [k |-> "unsupp", data |-> Legacy]
   ELSE [k |-> "ok", data |-> TransportFilter(c)]                    \* Server.discover
 
 \* one iteration of the discover loop in Client.Connect
+\* a plain HTTP error to the discover POST: streamableClientConn.Write wraps it with ErrRejected (the call fails, the
+\* connection lives); sseClientConn.Write returns it bare, jsonrpc2 records a write error and the connection is dead
 Round(c, r) ==
   LET rep == DiscReply(c, r) IN
-  IF rep.k = "ok" THEN
+  IF rep.k = "http" THEN [k |-> IF c.tr = "sse" THEN "dead" ELSE "break", v |-> ""]
+  ELSE IF rep.k = "ok" THEN
     LET n == IF r \in rep.data THEN r ELSE NegMutual(rep.data) IN
     IF n = "" \/ n \notin Modern THEN [k |-> "break", v |-> ""] ELSE [k |-> "session", v |-> n]
   ELSE IF rep.k = "unsupp" /\ rep.data # {} THEN
@@ -117,21 +167,33 @@ Round(c, r) ==
   ELSE [k |-> "break", v |-> ""]
 
 Sess(v, nd, init) == [kind |-> "session", version |-> v, nDisc |-> nd, sentInit |-> init, listOK |-> TRUE, callOK |-> TRUE]
-\* initialize(pv): the server answers negotiatedVersion(pv); the client accepts any SDK version
-InitVia(pv, nd) == Sess(NegotiatedVersion(pv), nd, TRUE)
+Err(nd, init) == [kind |-> "error", version |-> "", nDisc |-> nd, sentInit |-> init, listOK |-> FALSE, callOK |-> FALSE]
+\* initialize(pv): the SDK server answers negotiatedVersion(pv), another peer its fixed revision; the client accepts
+\* any version of the SDK's list (slices.Contains(supportedProtocolVersions, ..)), 2026-07-28 included, and fails on
+\* everything else.  With 2026-07-28 accepted that way the streamable client labels notifications/initialized with
+\* Mcp-Protocol-Version: 2026-07-28 but no _meta version, which every streamable endpoint refuses (400): Connect fails;
+\* on the pipes and on SSE nothing objects and the session is handed out
+InitAnswer(c, pv) == IF c.ians = "honest" THEN NegotiatedVersion(pv) ELSE c.ians
+InitVia(c, pv, nd) == LET a == InitAnswer(c, pv) IN
+                      IF a \notin V THEN Err(nd, TRUE)
+                      ELSE IF a \in Modern /\ c.tr \in HttpOpts THEN Err(nd, TRUE)
+                      ELSE Sess(a, nd, TRUE)
 
 Expected(c) ==
   LET r == Req(c) IN
-  IF ~ModernStr(r) THEN InitVia(r, 0)
+  IF ~ModernStr(r) THEN InitVia(c, r, 0)
   ELSE LET r1 == Round(c, r) IN
        IF r1.k = "session" THEN Sess(r1.v, 1, FALSE)
-       ELSE IF r1.k = "break" THEN InitVia(LatestLegacy, 1)
+       ELSE IF r1.k = "dead" THEN Err(1, FALSE)
+       ELSE IF r1.k = "break" THEN InitVia(c, LatestLegacy, 1)
        ELSE LET r2 == Round(c, r1.v) IN
-            IF r2.k = "session" THEN Sess(r2.v, 2, FALSE) ELSE InitVia(LatestLegacy, 2)
+            IF r2.k = "session" THEN Sess(r2.v, 2, FALSE) ELSE InitVia(c, LatestLegacy, 2)
 
 \* ------------------------------------------------------------- signatures
 \* abstract class of a failing (case, outcome): which clause, how the session was made, where
-TrClass(c) == IF c.wrap THEN "wrapped" ELSE IF c.prior = "none" THEN c.tr ELSE c.tr \o "+prior=" \o c.prior
+TrClass(c) == (IF c.wrap THEN "wrapped" ELSE IF c.prior = "none" THEN c.tr ELSE c.tr \o "+prior=" \o c.prior)
+              \o (IF c.disc \in HttpDiscs THEN "+disc=" \o c.disc ELSE "")
+              \o (IF c.ians = "honest" THEN "" ELSE "+ians=" \o c.ians)
 Via(o) == IF o.sentInit THEN "initialize" ELSE "discover"
 FailedClauses(c, o) ==
   (IF Sound(c, o) THEN {} ELSE {"Sound"}) \cup
